@@ -510,6 +510,67 @@ func c03Probes(c *mon.Ctx) {
 			}
 		}
 	}
+	// windows changed IN PLACE on the registered lint (the pointer the per-kind lookup hands out): from then on the
+	// window the lint carries is the changed one - for runs through the global registry, through registries filtered
+	// before and after the change, and for direct execution
+	early, _ := lint.GlobalRegistry().Filter(lint.FilterOptions{IncludeNames: names})
+	for kind, base := range bases {
+		if base == nil {
+			continue
+		}
+		for si, sh := range shapes {
+			if si%2 == 1 {
+				continue
+			}
+			name := map[corpus.Kind]string{corpus.Cert: "e_verif_probe_cert_", corpus.CRL: "e_verif_probe_crl_", corpus.OCSP: "e_verif_probe_ocsp_"}[kind] + sh.name
+			var meta *lint.LintMetadata
+			g := lint.GlobalRegistry()
+			switch kind {
+			case corpus.Cert:
+				if l := g.CertificateLints().ByName(name); l != nil {
+					meta = &l.LintMetadata
+				}
+			case corpus.CRL:
+				if l := g.RevocationListLints().ByName(name); l != nil {
+					meta = &l.LintMetadata
+				}
+			default:
+				if l := g.OcspResponseLints().ByName(name); l != nil {
+					meta = &l.LintMetadata
+				}
+			}
+			if meta == nil {
+				continue
+			}
+			oldE, oldI := meta.EffectiveDate, meta.IneffectiveDate
+			for _, mv := range [][2]time.Time{{t1.AddDate(0, 3, 0), time.Time{}}, {time.Time{}, t1.AddDate(0, -3, 0)}, {t1.AddDate(0, -6, 0), t1.AddDate(0, 6, 0)}} {
+				meta.EffectiveDate, meta.IneffectiveDate = mv[0], mv[1]
+				late, _ := g.Filter(lint.FilterOptions{IncludeNames: []string{name}})
+				for _, t := range []time.Time{t1.AddDate(0, -6, -1), t1.AddDate(0, -6, 0), t1.AddDate(0, -3, 0).Add(-time.Second), t1.AddDate(0, -3, 0), t1, t1.AddDate(0, 3, 0).Add(-time.Second), t1.AddDate(0, 3, 0), t1.AddDate(0, 6, 0).Add(-time.Second), t1.AddDate(0, 6, 0)} {
+					o := redate(base, t, 0)
+					if o == nil {
+						continue
+					}
+					in := mon.InWindow(*meta, o.Date())
+					for how, reg := range map[string]lint.Registry{"global registry": g, "registry filtered before the change": early, "registry filtered after the change": late} {
+						if reg == nil {
+							continue
+						}
+						rs, pv, _ := o.Reparse().Lint(reg)
+						c.R.Count("evaluations", 1)
+						if pv != nil || rs == nil || rs.Results[name] == nil {
+							continue
+						}
+						c.R.Count("in_place_window_judgements", 1)
+						if st := rs.Results[name].Status; in && st != lint.Pass || !in && st != lint.NE {
+							c.V(fmt.Sprintf("probe-window-changed-in-place|%s", kind), fmt.Sprintf("probe %s: its window was changed in place to [%s, %s); on a %s dated %s the %s gives %s, want in-window=%v", name, fmtDate(mv[0]), fmtDate(mv[1]), kind, o.Date().UTC().Format(time.RFC3339), how, st, in), name, inputs(o), nil)
+						}
+					}
+				}
+			}
+			meta.EffectiveDate, meta.IneffectiveDate = oldE, oldI
+		}
+	}
 }
 
 func shapeOf(name string) string {
